@@ -193,6 +193,59 @@ def body_ending_cases(ck, runner, batch, tier):
     ck.extra["body_ending_cases"] = n
 
 
+TIE_FALLBACK = "translator: shape unreadable, tie = exhaustive behavioural equivalence with the model programs"
+
+
+def behavioural_tie_cases(ck, runner, batch):
+    """the OTHER tie, used when open/close/__enter__/__exit__ cannot be read into the statement language: the real four methods
+    (sync and asyncio) under EVERY configuration of the event alphabet -- each hook absent / returning / raising / talking to the
+    device, transport.open() refused or not, transport.close() raising or not, each in-channel authentication branch, each
+    device-facing step (every read and write index) hit by each fault kind (gone | silent => closing timeout | silent => timeout that
+    closes nothing | read's own ScrapliTimeout), each way a with-body ends -- statements reached, outcomes and flags must equal the
+    model programs' (compared by correspond(); every run also goes through the oracle)"""
+    from harness import c11rig
+    n = 0
+    hooks = ("none", "ok", "raise", "default")
+    for stack in ("sync", "async"):
+        bodies = ["", "x", "r", "c", "cox", "T", "V", "K"] + (["Z"] if stack == "async" else [])
+        shapes = ["O C", "O C C", "C"] + [f"W.{b}" if b else "W" for b in bodies]
+        for oo in hooks:
+            for oc in hooks:
+                for tcr in (False, True):
+                    for sh in shapes:
+                        for refuse in (False, True):
+                            c = dict(stack=stack, platform="cisco_iosxe", kind="sim", sink="path", on_open=oo, on_close=oc,
+                                     **({"tclose_raises": True} if tcr else {}))
+                            c["ops"] = _hist(sh)
+                            if refuse:
+                                if c["ops"][0]["op"] == "C":
+                                    continue
+                                c["ops"][0]["fault"] = ["open", 0, "refuse"]
+                            n += run_cases(ck, runner, [c], batch, tags=("behavioural-tie",))
+        tn = [("system", False, {}), ("telnet", False, {}), (None, True, {})] if stack == "sync" else \
+             [("asynctelnet", False, {"timeout_ops": 2}), (None, True, {})]
+        for tname, bypass, extra in tn:
+            for tcr in (False, True):
+                for sh in ("O C", "W.x", "W.xT", "O X C"):
+                    h = _hist(sh)
+                    c = dict(stack=stack, platform="juniper_junos", kind="sim", sink="path", on_open="default", on_close="default", bypass=bypass,
+                             **({"tname": tname} if tname else {}), **({"tclose_raises": True} if tcr else {}), **extra)
+                    c["ops"] = [dict(x) for x in h]
+                    try:
+                        dry = runner.run(c)
+                    except c11rig.RigTrouble:
+                        continue
+                    for oi, (spec, res) in enumerate(zip(h, dry)):
+                        pts = fault_points(spec, res, "thorough")
+                        pts += [["read", k, "rtimeout"] for k in range(1, res["reads"] + 1)]
+                        for fp in pts:
+                            for nt in ((False, True) if fp[2] == "silent" and fp[0] == "read" else (False,)):
+                                c2 = dict(c, **({"no_terminate": True} if nt else {})); c2["ops"] = [dict(x) for x in h]
+                                c2["ops"][oi]["fault"] = fp
+                                n += run_cases(ck, runner, [c2], batch, tags=("behavioural-tie",))
+    ck.extra["behavioural_tie_cases"] = n
+
+
 # ------------------------------------------------------------------ model I/O
 def hook_word(case, which):
     h = case.get(which, "default")
@@ -555,10 +608,18 @@ def run(tier, seed):
                       "the real timer mechanisms run in the thorough tier only; Settings.NO_TERMINATE_ON_TIMEOUT off AND on (dedicated configurations)"]
     mine = load_findings(ck)
     # 1 translate
+    unreadable = None
     try:
         translate.translate(PID)
+        unreadable = getattr(translate.module_for(PID), "FALLBACK", None)
     except Exception as e:
         ck.proof_broken("translator gen/c11.py", repr(e))
+    if unreadable:
+        # the four methods are outside the statement language: no alarm by itself -- the generated file carries the model's programs
+        # (the `source_is_model` obligation is about the AST route and says nothing here) and the tie is behavioural_tie_cases()
+        ck.extra["tie"] = TIE_FALLBACK
+        ck.extra["translator_unreadable"] = unreadable
+        print(f"C11: {TIE_FALLBACK} ({unreadable})", file=sys.stderr)
     # 2 prove
     ck.prove("ScrapliProps.C11", lemma_files=["ScrapliProps/C11Lemmas.lean", "ScrapliModel/Lifecycle.lean", "ScrapliModel/LifecycleSyntax.lean"])
     if tier == "thorough":
@@ -611,6 +672,9 @@ def run(tier, seed):
                 break
         ck.extra["fault_point_cases"] = nfault
         ck.extra["phase_s"]["fault-points"] = round(time.time() - tp, 1); tp = time.time()
+        if unreadable:
+            behavioural_tie_cases(ck, runner, batch)
+            ck.extra["phase_s"]["behavioural-tie"] = round(time.time() - tp, 1); tp = time.time()
         # 3c' every way the body of a with-block may end x transport kinds x stacks
         body_ending_cases(ck, runner, batch, tier)
         ck.extra["phase_s"]["body-endings"] = round(time.time() - tp, 1); tp = time.time()
@@ -677,6 +741,8 @@ def run(tier, seed):
     runner.close()
     ck.extra["real_runs"] = runner.runs
     ck.extra["python_phase_s"] = round(time.time() - t0, 1)
+    if unreadable and info:
+        info = dict(info, tie="behavioural-equivalence")
     if info:
         ck.extra["source_variant"] = info
         check_variant_vs_findings(ck, info, live)
